@@ -32,7 +32,7 @@ CLAUSES = {
 
 BASE_CONST = {
     "MaxFrames": "16", "Dev_PruneWithoutReap": "FALSE", "Dev_AfterSpawnKillDetached": "TRUE",
-    "Dev_BuiltinIgnoreList": "TRUE", "Dev_AddEmptyNameReturns": "FALSE", "MaxExt": "0", "MaxFork": "0", "MaxSig": "0", "MaxNow": "9",
+    "Dev_BuiltinIgnoreList": "TRUE", "Dev_AddEmptyNameReturns": "FALSE", "MaxExt": "0", "MaxFork": "0", "MaxSig": "0", "MaxSock": "0", "MaxNow": "9",
     "MaxPid": "6", "Reduce": "TRUE", "ReqUntil": "4", "DieUntil": "5", "MaxReq": "1", "MaxDie": "1",
 }
 BASE_SUBST = {"DieStatuses": "st_one", "ObeyChoices": "both", "FaultSeqs": "nofault"}
@@ -85,6 +85,9 @@ MC.update({
             {"Configs": "c15_Configs", "Requests": "c15_Requests"}),
     "c15t": ({"MaxReq": "3", "MaxDie": "0", "ReqUntil": "2", "MaxNow": "6", "MaxPid": "6"},
              {"Configs": "c15_Configs", "Requests": "c15_Requests"}),
+    # on_demand: socket events (arrival, acceptance, arrival), one request, one death
+    "c02od": ({"MaxSock": "3", "MaxReq": "1", "MaxDie": "1", "ReqUntil": "6", "DieUntil": "7", "MaxNow": "10", "MaxPid": "6"},
+              {"Configs": "c02od_Configs", "Requests": "c02od_Requests"}),
     # reloadconfig: two reloads / one reload and one read-only request, a worker death anywhere
     "c12": ({"MaxReq": "2", "MaxDie": "1", "ReqUntil": "6", "MaxNow": "9", "MaxPid": "7"},
             {"Configs": "c12_Configs", "Requests": "c12_Requests"}),
@@ -95,18 +98,18 @@ MC.update({
 PROPS = {
     "C01": {"mc_quick": ["c01"], "mc_thorough": ["c01", "c01_deep", "c12q"],
             "profiles": {"default": (100, 2000), "count": (100, 3000)}, "conf": {"conf_full": (60, 800)}},
-    "C02": {"mc_quick": ["c02q"], "mc_thorough": ["c02", "c02_deep"],
-            "profiles": {"default": (80, 2000), "stop": (120, 3000)}, "conf": {"conf_full": (40, 600), "conf_pat": (30, 400)}},
+    "C02": {"mc_quick": ["c02q", "c02od"], "mc_thorough": ["c02", "c02od", "c02_deep"],
+            "profiles": {"default": (80, 2000), "stop": (120, 3000), "ondemand": (50, 1200)}, "conf": {"conf_full": (40, 600), "conf_pat": (30, 400), "conf_od": (20, 300)}},
     "C03": {"mc_quick": ["c03q"], "mc_thorough": ["c03"],
             "profiles": {"default": (60, 1500), "term": (140, 3500)}, "conf": {"conf_full": (40, 600), "conf_kids": (30, 400)}},
     "C04": {"mc_quick": ["c04"], "mc_thorough": ["c04", "c02"],
             "profiles": {"default": (80, 2000), "acct": (120, 3000)}, "conf": {"conf_full": (60, 800)}},
     "C05": {"mc_quick": ["c05q"], "mc_thorough": ["c05"],
-            "profiles": {"default": (80, 2000), "overlap": (120, 3000)}, "conf": {"conf_full": (60, 800)}},
+            "profiles": {"default": (80, 2000), "overlap": (120, 3000), "ondemand": (40, 1000)}, "conf": {"conf_full": (60, 800)}},
     "C09": {"mc_quick": ["c09q"], "mc_thorough": ["c09q", "c09t"],
-            "profiles": {"default": (80, 2000), "events": (120, 3000)}, "conf": {"conf_full": (60, 800)}},
-    "C10": {"mc_quick": ["c10"], "mc_thorough": ["c10", "c05"],
-            "profiles": {"default": (80, 2000), "excl": (120, 3000)}, "conf": {"conf_full": (40, 600), "conf_sig": (30, 400)}},
+            "profiles": {"default": (80, 2000), "events": (120, 3000), "ondemand": (40, 1000)}, "conf": {"conf_full": (60, 800)}},
+    "C10": {"mc_quick": ["c10"], "mc_thorough": ["c10", "c02od", "c05"],
+            "profiles": {"default": (80, 2000), "excl": (120, 3000), "ondemand": (40, 1000)}, "conf": {"conf_full": (40, 600), "conf_sig": (30, 400)}},
     "C14": {"mc_quick": ["c14"], "mc_thorough": ["c14", "c04"],
             "profiles": {"hooks": (200, 5000)}, "conf": {"conf_full": (60, 800)}},
     "C11": {"mc_quick": ["c10", "c15"], "mc_thorough": ["c10", "c15t", "c05"],
